@@ -47,8 +47,36 @@ fn text_mode(a: &[String]) -> i32 {
     }
 }
 
+fn fnv(b: &[u8]) -> u64 {
+    let mut h: u64 = 0xcbf29ce484222325;
+    for x in b { h ^= *x as u64; h = h.wrapping_mul(0x100000001b3); }
+    h
+}
+
+/// `deep codepage <unit, hex of its UTF-8> <count>`: encode the repeated unit to LFS bytes and decode those; prints
+/// `ok <fnv of the bytes> <fnv of the decoded text>` for the parent to compare with what the optimised build makes.
+fn codepage_mode(a: &[String]) -> i32 {
+    use insim_core::string::codepages::{to_lossy_bytes, to_lossy_string};
+    let unit: Option<Vec<u8>> = a.get(2).and_then(|h| (0..h.len() / 2).map(|k| u8::from_str_radix(h.get(2 * k..2 * k + 2)?, 16).ok()).collect());
+    let (Some(unit), Some(count)) = (unit.and_then(|u| String::from_utf8(u).ok()), a.get(3).and_then(|x| x.parse::<usize>().ok())) else { return 2 };
+    let s = unit.repeat(count);
+    match std::panic::catch_unwind(|| { let b = to_lossy_bytes(&s).to_vec(); let t = to_lossy_string(&b).to_string(); (b, t) }) {
+        Err(_) => { println!("panic"); 1 },
+        Ok((b, t)) => { println!("ok {:016x} {:016x}", fnv(&b), fnv(t.as_bytes())); 0 },
+    }
+}
+
 fn main() {
     let a: Vec<String> = std::env::args().collect();
+    if a.get(1).map(|x| x == "codepage").unwrap_or(false) {
+        let _ = std::thread::spawn(|| {
+            std::thread::sleep(std::time::Duration::from_secs(120));
+            println!("hang");
+            std::process::exit(1);
+        });
+        std::panic::set_hook(Box::new(|_| {}));
+        std::process::exit(codepage_mode(&a));
+    }
     if a.get(1).map(|x| x == "text").unwrap_or(false) {
         let _ = std::thread::spawn(|| {
             std::thread::sleep(std::time::Duration::from_secs(120));
